@@ -631,3 +631,57 @@ def dflt_doc_sites(d):
             out.append({"at": ["PqRequest", loc], "kind": loc, "comp": None, "inline": False,
                         "fields": [{"name": p["name"], "k": "m", "m": p["m"]} for p in ps], "deny": False, "ann": {}})
     return out
+
+
+# ---- C16: documents with several inline-object sites (same shape, different limits) ----
+def _valid_site_schema(site):
+    fn = [f["name"] for f in site["fields"]]
+    if fn != sorted(set(fn)) or not all(_re.fullmatch(r"[a-z][a-z0-9_]*", x) for x in fn):
+        raise ValueError("fields must be sorted, distinct snake_case")
+    if any(f["s"]["k"] not in ("prim", "arrP") for f in site["fields"]):
+        raise ValueError("sites hold leaf members only")
+    o = {"type": "object", "properties": {f["name"]: fs_schema(f["s"]) for f in site["fields"]}}
+    req = [f["name"] for f in site["fields"] if f["req"]]
+    if req:
+        o["required"] = req
+    for k, v in (site.get("ann") or {}).items():
+        o[k] = v
+    return o
+
+
+def valid_sites_spec(d):
+    """d: {comps: [{name, usage: req|resp|both, fields: [{name, wrap: plain|array, req, ann?, fields: [{name, req, s}]}]}]}
+    every component is used by its own operation `op<Name>` as its usage says"""
+    s = {"openapi": "3.1.0", "info": {"title": "t", "version": "1"}, "paths": {}, "components": {"schemas": {}}}
+    ref = lambda n: {"$ref": "#/components/schemas/" + n}
+    names = [c["name"] for c in d["comps"]]
+    if names != sorted(set(names)):
+        raise ValueError("components must be sorted and distinct")
+    for c in d["comps"]:
+        fn = [f["name"] for f in c["fields"]]
+        if fn != sorted(set(fn)):
+            raise ValueError("members must be sorted and distinct")
+        o = {"type": "object", "properties": {}}
+        for f in c["fields"]:
+            sch = _valid_site_schema(f)
+            o["properties"][f["name"]] = {"type": "array", "items": sch} if f.get("wrap") == "array" else sch
+        req = [f["name"] for f in c["fields"] if f.get("req")]
+        if req:
+            o["required"] = req
+        s["components"]["schemas"][c["name"]] = o
+        u = c["usage"]
+        if u not in ("req", "resp", "both"):
+            raise ValueError("usage")
+        op = {"operationId": "op" + c["name"], "responses": {"200": {"description": "ok"}}}
+        if u in ("req", "both"):
+            op["requestBody"] = {"required": True, "content": {"application/json": {"schema": ref(c["name"])}}}
+        if u in ("resp", "both"):
+            op["responses"]["200"]["content"] = {"application/json": {"schema": ref(c["name"])}}
+        s["paths"]["/" + c["name"].lower()] = {"post": op}
+    return s
+
+
+def valid_sites_list(d):
+    """[{at: [component, member], usage, key: the site's own object schema, fields}] in walk order"""
+    return [{"at": [c["name"], f["name"]], "usage": c["usage"], "key": _valid_site_schema(f), "fields": f["fields"]}
+            for c in d["comps"] for f in c["fields"]]
